@@ -231,8 +231,6 @@ def sig_feats(s, inverse_dir=False):
     _derived(s, d)
     fs_ |= {x for x in d if x == 'tshift'}
     if inverse_dir:
-        if _contains(s, ('twoexp', 'sgnexp', 'ttwoexp', 'lorentz')):
-            fs_.add('twosided')        # spectrum with poles in both half planes
         if 'modstep' in d:
             fs_.add('modstep')
         if 'anticausal' in d:
@@ -756,6 +754,19 @@ def run(tier='quick', replay=None):
         for o in meta['var_obligations']:
             ft_ = '%s:%s.%s' % ('sshort' if o['name'].startswith('sshort_') else 'conv', o['cls'], o['method'])
             oblkey[o['name']] = (None, ft_)
+        import hashlib
+        irhash = {}
+        if tr is not None:
+            for e in tr.entries:
+                irhash['table_sound_%d' % e['line']] = hashlib.sha1(repr(e['fwd']).encode()).hexdigest()[:8]
+                irhash['table_inv_%d' % e['line']] = hashlib.sha1(repr(e['inv']).encode()).hexdigest()[:8]
+            for v in tr.varchanges:
+                irhash['varchange_%s_%s' % (v['cls'], v['method'])] = hashlib.sha1(repr(v['ir']).encode()).hexdigest()[:8]
+            for v in tr.sconv:
+                irhash['sshort_%s' % v['method']] = hashlib.sha1(repr(v['ir']).encode()).hexdigest()[:8]
+
+        def heads(txt):
+            return ','.join(sorted(set(re.findall(r'([A-Za-z_]\w*)\(', txt or '')))) or 'none'
         broken = {}
         for name, f_, msg in res.failed_obl:
             if name in oblkey:
@@ -777,11 +788,20 @@ def run(tier='quick', replay=None):
             sus = [f_ for f_ in st['feats'] if (kind, f_) in failing and (kind, f_) not in passing]
             sus.sort(key=lambda f_: (-failing[(kind, f_)], f_))
             if bf:
-                key = '%s:%s' % (kind, bf)
+                # a known defect of a table entry / scale factor is the translated expression itself: the finding is keyed by
+                # the hash of that expression, and only covers results that the model WITH the translated (wrong) expression
+                # reproduces exactly; anything else on the same entry is a different violation
+                explained = st['state'] != 'compared' or kind in ('rt', 'conv') or not any(x == 'bad' for x in (st.get('code') or []))
+                if explained:
+                    key = '%s:%s@%s' % (kind, bf, '+'.join(sorted(irhash.get(n, '?') for n in thms)))
+                else:
+                    key = '%s:%s:unexplained:%s' % (kind, bf, heads(st['str']))
             elif st['state'] == 'nonfinite' and 'degenerate_delta' in st['feats']:
                 key = '%s:degenerate_delta' % kind
             elif sus:
-                key = '%s:%s' % (kind, sus[0])
+                # keyed by the input class and the shape of the wrong result (function heads), so that a different wrong
+                # result for the same class is a new violation
+                key = '%s:%s:%s' % (kind, sus[0], heads(st['str']))
             else:
                 key = '%s:input:%s' % (kind, re.sub(r'\s+', '', c['expr'])[:60])
             ce = {'case': {k: v for k, v in c.items() if k != 'id'}, 'op_index': oi, 'lcapy': st['str'], 'spec_compare': st.get('spec'),
